@@ -83,7 +83,11 @@ const PATTERNS: [&str; 19] = [
 ];
 const JSON_PATTERNS: [&str; 6] = ["(pair key: (string) @k value: (_) @v) @p", "(array (_) @e) @a", "(string (string_content)? @c) @s", "(number) @n", "[(true) (false) (null)] @lit", "(object (pair)* @ps) @o"];
 
-const PREDICATES: [&str; 12] = [
+const PREDICATES: [&str; 15] = [
+    // predicates over two captures bound at different steps, the later of which the grammar guarantees
+    "((let_stmt name: (name) @n value: (_) @v) (#eq? @n @v))",
+    "((let_stmt name: (name) @n value: (_) @v) (#not-eq? @n @v))",
+    "((call fn: (identifier) @f args: (args) @a) (#not-eq? @f @a))",
     "((identifier) @a (#eq? @a \"a\"))",
     "((identifier) @a (#not-eq? @a \"a\"))",
     "((binary left: (identifier) @l right: (identifier) @r) (#eq? @l @r))",
